@@ -25,7 +25,9 @@ THEOREMS = [
     "Docstring.render_failure_masked_old_counterexample", "Docstring.reported_once_phase",
     "Docstring.recovered_errors_reported",
     "Docstring.reported_once", "Docstring.second_call_silent", "Docstring.doc_second_call", "Docstring.isolation",
-    "Docstring.summary_fallback_touches_source", "Docstring.summary_fallback_overwrites_class_summary", "Docstring.extract_spec",
+    "Docstring.summary_failure_stays_local", "Docstring.extract_spec",
+    # historical, about format_summary before c070c47 (`formatSummaryOld`)
+    "Docstring.summary_fallback_touches_source", "Docstring.summary_fallback_overwrites_class_summary",
     "Docstring.summary_failure_unreported_counterexample", "Docstring.blanked_docstring_fallback_counterexample",
     # the further wrappers (round 3)
     "Docstring.pyval_total", "Docstring.pyval_failure_reported", "Docstring.signature_total",
